@@ -206,6 +206,12 @@ func (st *execState) exec(w []string) string {
 	return "bad-op"
 }
 
+// ExecOn executes a non-cfg op of the c01 protocol on the given storage.
+func ExecOn(sto blobserver.Storage, w []string) string {
+	st := &execState{sto: sto}
+	return st.exec(w)
+}
+
 // NewExec returns a fresh interpreter; its temp directory lives until the next cfg or process exit.
 func NewExec() func(w []string) string {
 	st := &execState{}
